@@ -28,10 +28,83 @@ fn unjson(s: &str) -> String {
     out
 }
 
+/// Leftmost-first behavioural equivalence of two patterns, anchored at the start of the haystack: the product of
+/// the two dense DFAs is explored breadth-first; the patterns agree iff in every reachable pair of states both or
+/// neither are match states (also after the end-of-input transition). Agreement of anchored searches from every
+/// position implies agreement of the unanchored leftmost searches built from them.
+/// Returns None if equivalent, otherwise a shortest distinguishing input.
+fn distinguishing_input(a: &str, b: &str) -> Result<Option<Vec<u8>>, String> {
+    use regex_automata::dfa::{dense, Automaton, StartKind};
+    use regex_automata::util::start;
+    use regex_automata::{Anchored, MatchKind};
+    use std::collections::{HashMap, VecDeque};
+    let build = |p: &str| {
+        dense::Builder::new()
+            .configure(
+                dense::Config::new()
+                    .start_kind(StartKind::Anchored)
+                    .match_kind(MatchKind::LeftmostFirst)
+                    .minimize(false),
+            )
+            .build(p)
+            .map_err(|e| e.to_string())
+    };
+    let (da, db) = (build(a)?, build(b)?);
+    let cfg = start::Config::new().anchored(Anchored::Yes);
+    let sa = da.start_state(&cfg).map_err(|e| e.to_string())?;
+    let sb = db.start_state(&cfg).map_err(|e| e.to_string())?;
+    let mut seen: HashMap<_, (Option<(_, u8)>,)> = HashMap::new();
+    let mut queue = VecDeque::new();
+    seen.insert((sa, sb), (None,));
+    queue.push_back((sa, sb));
+    let path = |seen: &HashMap<_, (Option<(_, u8)>,)>, mut at| {
+        let mut out = vec![];
+        while let Some((Some((prev, byte)),)) = seen.get(&at) {
+            out.push(*byte);
+            at = *prev;
+        }
+        out.reverse();
+        out
+    };
+    while let Some((x, y)) = queue.pop_front() {
+        if seen.len() > 2_000_000 {
+            return Err("product automaton too large".into());
+        }
+        if da.is_quit_state(x) || db.is_quit_state(y) {
+            return Err("quit state (unsupported look-around)".into());
+        }
+        let (ex, ey) = (da.next_eoi_state(x), db.next_eoi_state(y));
+        if da.is_match_state(x) != db.is_match_state(y) || da.is_match_state(ex) != db.is_match_state(ey) {
+            return Ok(Some(path(&seen, (x, y))));
+        }
+        if da.is_dead_state(x) && db.is_dead_state(y) {
+            continue;
+        }
+        for byte in 0..=255u8 {
+            let n = (da.next_state(x, byte), db.next_state(y, byte));
+            if !seen.contains_key(&n) {
+                seen.insert(n, (Some(((x, y), byte)),));
+                queue.push_back(n);
+            }
+        }
+    }
+    Ok(None)
+}
+
 fn main() {
     for line in std::io::stdin().lock().lines() {
         let line = line.unwrap();
         if line.trim().is_empty() {
+            continue;
+        }
+        if let Some(rest) = line.strip_prefix("equiv\t") {
+            let mut it = rest.split('\t');
+            let (a, b) = (unjson(it.next().unwrap_or("\"\"")), unjson(it.next().unwrap_or("\"\"")));
+            match distinguishing_input(&a, &b) {
+                Ok(None) => println!("equiv"),
+                Ok(Some(w)) => println!("differ {}", w.iter().map(|c| format!("{:02x}", c)).collect::<String>()),
+                Err(e) => println!("err {}", e.replace('\n', " ")),
+            }
             continue;
         }
         let pat = unjson(&line);
